@@ -64,6 +64,7 @@ type Invocation struct {
 	Opts     []int  // option codes of the returned response (top level)
 	RT       string // non-empty: the returned response does not survive serialise + parse (C19)
 	ReqSum   uint64 // digest of the request object the handler received (serialised)
+	OutSum   uint64 // digest of the response the handler returned (serialised; 0 if nil or not serialisable)
 }
 
 var registered bool
@@ -119,6 +120,7 @@ func observe(p *plugins.Plugin, isBuiltin bool) *plugins.Plugin {
 					inv.Lease = int64(r.IPAddressLeaseTime(-1))
 					inv.MsgType = int(r.MessageType())
 					inv.RT = roundTrip4(r)
+					inv.OutSum = sum4(r)
 				}
 				simrt.UserLog(inv)
 				return r, stop
@@ -142,6 +144,7 @@ func observe(p *plugins.Plugin, isBuiltin bool) *plugins.Plugin {
 				if r != nil {
 					observe6(inv, r)
 					inv.RT = roundTrip6(r)
+					inv.OutSum = sum6(r)
 				}
 				simrt.UserLog(inv)
 				return r, stop
